@@ -3,6 +3,7 @@ package props
 import (
 	"fmt"
 	"math/rand"
+	"runtime"
 	"sort"
 	"strings"
 	"sync"
@@ -694,27 +695,48 @@ func c08wire(c *runner.Ctx, i int) {
 	defer sess.Close()
 	var wg sync.WaitGroup
 	var okN, failN int64
-	for k := 0; k < 127; k++ {
+	hold := func(k int) {
+		defer wg.Done()
+		if err := sess.Query(fmt.Sprintf("HOLD %d", k)).Exec(); err == nil {
+			atomic.AddInt64(&okN, 1)
+		} else {
+			atomic.AddInt64(&failN, 1)
+		}
+	}
+	waitParked := func(n int) int {
+		parked := 0
+		for w := 0; w < 2000; w++ {
+			mu.Lock()
+			parked = len(held)
+			mu.Unlock()
+			if parked+int(atomic.LoadInt64(&failN)) >= n {
+				break
+			}
+			time.Sleep(2 * time.Millisecond)
+		}
+		return parked
+	}
+	// all ids but a few are parked ...
+	first := 127 - 1 - i%3
+	for k := 0; k < first; k++ {
+		wg.Add(1)
+		go hold(k)
+	}
+	waitParked(first)
+	// ... and many callers at once go for the last ones: the pool hands the connection to all of them (it has ids
+	// left when they look), a few get an id, the others are refused inside the connection
+	var start int32
+	for k := first; k < first+24; k++ {
 		wg.Add(1)
 		go func(k int) {
-			defer wg.Done()
-			if err := sess.Query(fmt.Sprintf("HOLD %d", k)).Exec(); err == nil {
-				atomic.AddInt64(&okN, 1)
-			} else {
-				atomic.AddInt64(&failN, 1)
+			for atomic.LoadInt32(&start) == 0 {
+				runtime.Gosched()
 			}
+			hold(k)
 		}(k)
 	}
-	parked := 0
-	for w := 0; w < 2000; w++ {
-		mu.Lock()
-		parked = len(held)
-		mu.Unlock()
-		if parked+int(atomic.LoadInt64(&failN)) >= 127 {
-			break
-		}
-		time.Sleep(2 * time.Millisecond)
-	}
+	atomic.StoreInt32(&start, 1)
+	parked := waitParked(first + 24)
 	// the connection is full (its heartbeat may hold one of the ids): more requests are refused, and refused again
 	refused := 0
 	for k := 0; k < 6; k++ {
